@@ -35,3 +35,37 @@ Proof. exact eval_fuel_irrelevant. Qed.
 Check C01_eval_fuel_irrelevant : forall prog rank, calls_below prog rank ->
   forall sn n m q, (rank q < n)%nat -> (rank q < m)%nat -> eval prog n sn q = eval prog m sn q.
 Print Assumptions C01_eval_fuel_irrelevant.
+
+(* ------------------------------------------------------------------------------------
+   The from-scratch theorem over the executable Core model (Core/Model.v), for every acyclic
+   program of deterministic bodies (input reads, calls with dynamic keys, branches, untracked
+   reads, fault-injection points), every no_eq / LRU configuration, and every history of
+   operations (writes, synthetic writes of any durability, cell changes followed by a new
+   revision, reads in any order, LRU capacity changes, explicit eviction, fault switches)
+   in which input fields keep LOW durability:
+   every Get returns eval of the current snapshot — or unwinds with the backdate-violation
+   panic / an injected panic — and is never out of fuel, never a cycle panic. *)
+From Salsa.Core Require Import Inv InvTop.
+
+Theorem C01_from_scratch_partial :
+  forall (prog : qkey -> body) (noeq : qkey -> bool) (fams : list N)
+         (rank : qkey -> nat) (NF : nat),
+  calls_below prog rank -> (forall q, (rank q < NF)%nat) ->
+  forall fuel, (forall p, (rank p < fuel)%nat) ->
+  forall iv lru0 ops,
+    Forall low_op ops -> wf_ops false ops ->
+    outs_ok prog noeq fams NF fuel (init iv (fun _ => 0) lru0) ops.
+Proof.
+  intros prog noeq fams rank NF Hrank Hbound fuel Hfuel iv lru0 ops Hlow Hwf.
+  exact (from_scratch_low prog noeq fams rank Hrank NF Hbound fuel Hfuel ops false _ Hlow Hwf
+           (init_ok prog NF iv lru0)).
+Qed.
+Check C01_from_scratch_partial :
+  forall (prog : qkey -> body) (noeq : qkey -> bool) (fams : list N)
+         (rank : qkey -> nat) (NF : nat),
+  calls_below prog rank -> (forall q, (rank q < NF)%nat) ->
+  forall fuel, (forall p, (rank p < fuel)%nat) ->
+  forall iv lru0 ops,
+    Forall low_op ops -> wf_ops false ops ->
+    outs_ok prog noeq fams NF fuel (init iv (fun _ => 0) lru0) ops.
+Print Assumptions C01_from_scratch_partial.
